@@ -197,70 +197,25 @@ func runC01(c *Ctx) {
 	f := w.Facts(run)
 
 	// ---- R1 ----
-	// Authenticate's receiver: element of the handlers parameter at a forward range index
-	authRecv := m.AuthCall.Call.Value
-	okRange := false
-	var handlersParam *ssa.Parameter
-	if ld, ok := authRecv.(*ssa.UnOp); ok && ld.Op == token.MUL {
-		if ia, ok := ld.X.(*ssa.IndexAddr); ok {
-			if p, ok := w.resolveUp(run, ia.X).(*ssa.Parameter); ok && p.Parent() == run && isForwardRangeIndex(ia.Index) {
-				okRange = true
-				handlersParam = p
+	// the selection written as a library search: idx := slices.IndexFunc(handlers, func(h) bool { return h.Authenticate(params) == nil })
+	var sel *searchCall
+	if pf := m.AuthCall.Parent(); pf != run {
+		for _, sc := range searchCallsIn(run) {
+			if p, ok := w.resolveUp(run, sc.seq).(*ssa.Parameter); sc.index && sc.pred == pf && ok && p.Parent() == run && throughCell(strip(m.AuthCall.Call.Value)) == ssa.Value(sc.pred.Params[0]) {
+				sc := sc
+				sel = &sc
 			}
 		}
 	}
-	c.Check(okRange, "R1.select", "Run|handlers tried in slice order", w.Pos(m.AuthCall.Pos()),
-		"Authenticate is invoked on handlers[i] for i = 0,1,2,... (forward range over the parameter)", "Authenticate's receiver is not the element of a forward range over the handlers parameter")
-	_ = handlersParam
 	// Authenticate receives the run's own parameter set
 	c.Check(len(m.AuthCall.Call.Args) == 1 && w.Expr(m.AuthCall.Call.Args[0]) == "p1", "R1.select", "Run|Authenticate(params)", w.Pos(m.AuthCall.Pos()), "the caller's parameters are authenticated", "Authenticate is not given Run's params: "+w.Short(m.AuthCall.Call.Args[0]))
 	c.Check(len(m.GenCall.Call.Args) == 1 && w.Expr(m.GenCall.Call.Args[0]) == "p1", "R1.select", "Run|Generate(params)", w.Pos(m.GenCall.Pos()), "the same parameters are used for generation", "Generate is not given Run's params: "+w.Short(m.GenCall.Call.Args[0]))
 
-	// Generate's receiver
 	genRecv := m.GenCall.Call.Value
-	isNil, known := f.KnownNil(m.GenCall.Block(), genRecv)
-	c.Check(known && !isNil, "R1.select", "Run|Generate receiver non-nil", w.Pos(m.GenCall.Pos()), "must-fact handler != nil", "Generate can be invoked on a path where no handler was selected")
-	for _, lf := range w.Leaves(genRecv, m.GenCall) {
-		if isNilConst(lf.Val) {
-			continue // excluded by the fact above
-		}
-		ok := lf.Val == authRecv
-		if ok {
-			ok = false
-			for l := range lf.Facts {
-				if y, isNil, k := nilTest(l); k && isNil && strip(y) == ssa.Value(m.AuthCall) {
-					ok = true
-				}
-			}
-		}
-		c.Check(ok, "R1.select", "Run|selected handler authenticated", w.Pos(m.GenCall.Pos()),
-			"the value reaching Generate's receiver is the element whose Authenticate returned nil (must-fact on the edge)",
-			"a handler can reach Generate without the must-fact that its own Authenticate returned nil: "+w.Short(lf.Val))
-	}
-	// success edge leaves the loop
-	for _, b := range m.AuthCall.Parent().Blocks {
-		if isNil, known := f.KnownNil(b, m.AuthCall); known && isNil && len(b.Instrs) > 0 {
-			if b == m.AuthCall.Block() {
-				continue
-			}
-			if ReachableAvoiding(b.Instrs[0], nil)(m.AuthCall) {
-				c.Bad("R1.select", "Run|first successful handler wins", w.Pos(b.Instrs[0].Pos()), "after a successful Authenticate control can reach Authenticate again (a later handler may replace the first one)")
-			} else {
-				c.Ok("R1.select", "Run|first successful handler wins", w.Pos(b.Instrs[0].Pos()), "the success edge leaves the loop")
-			}
-		}
-	}
-	// when the selection loop lives in a helper, the helper itself is entered once
-	for g := m.AuthCall.Parent(); g != run; {
-		sites := w.sitesIn(run, g)
-		if len(sites) != 1 {
-			c.Bad("R1.select", "Run|first successful handler wins", w.FnPos(g), "the handler selection "+shortFn(g)+" is entered from "+itoa(len(sites))+" places of Run")
-			break
-		}
-		if ReachableAvoiding(sites[0], nil)(sites[0]) {
-			c.Bad("R1.select", "Run|first successful handler wins", w.Pos(sites[0].Pos()), "the handler selection can run again after it returned (a later handler may replace the first one)")
-		}
-		g = sites[0].Parent()
+	if sel != nil {
+		c01SearchSelect(c, w, m, f, sel)
+	} else {
+		c01LoopSelect(c, w, m, f)
 	}
 	// sign / add dominated by successful generate
 	for name, call := range map[string]*ssa.Call{"Signer.Sign": m.SignCall, "AddCertsToAgent": m.AddCall} {
@@ -268,27 +223,7 @@ func runC01(c *Ctx) {
 		isNil, known := f.KnownNil(call.Block(), m.GenErr)
 		c.Check(okDom && known && isNil, "R1.select", "Run|"+name+" only after successful Generate", w.Pos(call.Pos()), "dominated by Generate with must-fact err == nil", name+" is reachable without a successful Generate")
 	}
-	// the no-handler branch
-	nNo := 0
-	for _, r := range liveReturns(run) {
-		isNil, known := f.KnownNil(r.Block(), genRecv)
-		if !known || !isNil {
-			continue
-		}
-		nNo++
-		okKind := true
-		for _, lf := range w.Leaves(r.Results[errorResultIndex(run)], r) {
-			k, ok := errKindOf(lf.Val)
-			if ok && k == m.Kinds["Panic"] {
-				continue // the deferred recover may overwrite the result
-			}
-			if !ok || k != m.Kinds["AllAuthFailed"] {
-				okKind = false
-			}
-		}
-		c.Check(okKind, "R1.select", "Run|no handler => AllAuthFailed", w.Pos(r.Pos()), "returns an *Error of kind AllAuthFailed", "the no-handler branch does not return an AllAuthFailed error: "+w.Short(r.Results[errorResultIndex(run)]))
-	}
-	c.Floor("R1.select", nNo, 1, "return on the no-handler branch")
+	_ = genRecv
 
 	// ---- R2 / R3 per handler ----
 	nHandlers := 0
@@ -737,4 +672,161 @@ func hasRecoverDefer(w *World, g *ssa.Function) bool {
 		}
 	}
 	return false
+}
+
+// c01LoopSelect: the handler selection written as a loop over the handlers parameter.
+func c01LoopSelect(c *Ctx, w *World, m *gensignModel, f *Facts) {
+	run := m.Run
+	// Authenticate's receiver: element of the handlers parameter at a forward range index
+	authRecv := m.AuthCall.Call.Value
+	okRange := false
+	var handlersParam *ssa.Parameter
+	if ld, ok := authRecv.(*ssa.UnOp); ok && ld.Op == token.MUL {
+		if ia, ok := ld.X.(*ssa.IndexAddr); ok {
+			if p, ok := w.resolveUp(run, ia.X).(*ssa.Parameter); ok && p.Parent() == run && isForwardRangeIndex(ia.Index) {
+				okRange = true
+				handlersParam = p
+			}
+		}
+	}
+	c.Check(okRange, "R1.select", "Run|handlers tried in slice order", w.Pos(m.AuthCall.Pos()),
+		"Authenticate is invoked on handlers[i] for i = 0,1,2,... (forward range over the parameter)", "Authenticate's receiver is not the element of a forward range over the handlers parameter")
+	_ = handlersParam
+	// Generate's receiver
+	genRecv := m.GenCall.Call.Value
+	isNil, known := f.KnownNil(m.GenCall.Block(), genRecv)
+	c.Check(known && !isNil, "R1.select", "Run|Generate receiver non-nil", w.Pos(m.GenCall.Pos()), "must-fact handler != nil", "Generate can be invoked on a path where no handler was selected")
+	for _, lf := range w.Leaves(genRecv, m.GenCall) {
+		if isNilConst(lf.Val) {
+			continue // excluded by the fact above
+		}
+		ok := lf.Val == authRecv
+		if ok {
+			ok = false
+			for l := range lf.Facts {
+				if y, isNil, k := nilTest(l); k && isNil && strip(y) == ssa.Value(m.AuthCall) {
+					ok = true
+				}
+			}
+		}
+		c.Check(ok, "R1.select", "Run|selected handler authenticated", w.Pos(m.GenCall.Pos()),
+			"the value reaching Generate's receiver is the element whose Authenticate returned nil (must-fact on the edge)",
+			"a handler can reach Generate without the must-fact that its own Authenticate returned nil: "+w.Short(lf.Val))
+	}
+	// success edge leaves the loop
+	for _, b := range m.AuthCall.Parent().Blocks {
+		if isNil, known := f.KnownNil(b, m.AuthCall); known && isNil && len(b.Instrs) > 0 {
+			if b == m.AuthCall.Block() {
+				continue
+			}
+			if ReachableAvoiding(b.Instrs[0], nil)(m.AuthCall) {
+				c.Bad("R1.select", "Run|first successful handler wins", w.Pos(b.Instrs[0].Pos()), "after a successful Authenticate control can reach Authenticate again (a later handler may replace the first one)")
+			} else {
+				c.Ok("R1.select", "Run|first successful handler wins", w.Pos(b.Instrs[0].Pos()), "the success edge leaves the loop")
+			}
+		}
+	}
+	// when the selection loop lives in a helper, the helper itself is entered once
+	for g := m.AuthCall.Parent(); g != run; {
+		sites := w.sitesIn(run, g)
+		if len(sites) != 1 {
+			c.Bad("R1.select", "Run|first successful handler wins", w.FnPos(g), "the handler selection "+shortFn(g)+" is entered from "+itoa(len(sites))+" places of Run")
+			break
+		}
+		if ReachableAvoiding(sites[0], nil)(sites[0]) {
+			c.Bad("R1.select", "Run|first successful handler wins", w.Pos(sites[0].Pos()), "the handler selection can run again after it returned (a later handler may replace the first one)")
+		}
+		g = sites[0].Parent()
+	}
+	// the no-handler branch
+	nNo := 0
+	for _, r := range liveReturns(run) {
+		isNil, known := f.KnownNil(r.Block(), genRecv)
+		if !known || !isNil {
+			continue
+		}
+		nNo++
+		okKind := true
+		for _, lf := range w.Leaves(r.Results[errorResultIndex(run)], r) {
+			k, ok := errKindOf(lf.Val)
+			if ok && k == m.Kinds["Panic"] {
+				continue // the deferred recover may overwrite the result
+			}
+			if !ok || k != m.Kinds["AllAuthFailed"] {
+				okKind = false
+			}
+		}
+		c.Check(okKind, "R1.select", "Run|no handler => AllAuthFailed", w.Pos(r.Pos()), "returns an *Error of kind AllAuthFailed", "the no-handler branch does not return an AllAuthFailed error: "+w.Short(r.Results[errorResultIndex(run)]))
+	}
+	c.Floor("R1.select", nNo, 1, "return on the no-handler branch")
+}
+
+// c01SearchSelect: the handler selection written as slices.IndexFunc over the handlers parameter with a predicate that
+// authenticates its element; the found element is the one Generate is invoked on.
+func c01SearchSelect(c *Ctx, w *World, m *gensignModel, f *Facts, sel *searchCall) {
+	run := m.Run
+	c.Saw(sel.pred)
+	c.Ok("R1.select", "Run|handlers tried in slice order", w.Pos(m.AuthCall.Pos()), calleeName(sel.call)+" over the handlers parameter, the predicate authenticates its element")
+	// the predicate holds exactly when Authenticate returned nil
+	pf := w.Facts(sel.pred)
+	okPred, nRet := true, 0
+	for _, r := range liveReturns(sel.pred) {
+		nRet++
+		for _, lf := range w.Leaves(r.Results[0], r) {
+			k, isK := throughCell(strip(lf.Val)).(*ssa.Const)
+			if !isK || k.Value == nil {
+				okPred = false
+				continue
+			}
+			isNil, known := pf.KnownNil(r.Block(), m.AuthCall)
+			for l := range lf.Facts {
+				if y, n, ok := nilTest(l); ok && strip(y) == ssa.Value(m.AuthCall) {
+					isNil, known = n, true
+				}
+			}
+			if !known || (k.Value.String() == "true") != isNil {
+				okPred = false
+			}
+		}
+	}
+	c.Check(okPred && nRet > 0, "R1.select", "Run|selected handler authenticated", w.FnPos(sel.pred), "the search predicate is true exactly when its element's Authenticate returned nil", "the search predicate does not mean 'this handler authenticated the request'")
+	// the search runs once
+	if ReachableAvoiding(sel.call, nil)(sel.call) {
+		c.Bad("R1.select", "Run|first successful handler wins", w.Pos(sel.call.Pos()), "the handler selection can run again after it returned (a later handler may replace the first one)")
+	} else {
+		c.Ok("R1.select", "Run|first successful handler wins", w.Pos(sel.call.Pos()), "the library search stops at the first element the predicate accepts; it runs once")
+	}
+	// Generate's receiver is the found element
+	genRecv := m.GenCall.Call.Value
+	okRecv := false
+	if ld, ok := throughCell(strip(genRecv)).(*ssa.UnOp); ok && ld.Op == token.MUL {
+		if ia, ok := ld.X.(*ssa.IndexAddr); ok && w.SameValue(run, ia.X, sel.seq) && throughCell(strip(ia.Index)) == ssa.Value(sel.call) {
+			okRecv = true
+		}
+	}
+	c.Check(okRecv, "R1.select", "Run|Generate on the found handler", w.Pos(m.GenCall.Pos()), "handlers[idx] with idx the search result", "Generate's receiver is not the element the search found: "+w.Short(genRecv))
+	found := func(b *ssa.BasicBlock, want bool) bool {
+		return f.Any(b, func(l Lit) bool { v, ok := sel.found(l); return ok && v == want })
+	}
+	c.Check(found(m.GenCall.Block(), true), "R1.select", "Run|Generate receiver non-nil", w.Pos(m.GenCall.Pos()), "must-fact idx >= 0", "Generate can be invoked on a path where no handler was selected")
+	// the no-handler branch
+	nNo := 0
+	for _, r := range liveReturns(run) {
+		if !found(r.Block(), false) {
+			continue
+		}
+		nNo++
+		okKind := true
+		for _, lf := range w.Leaves(r.Results[errorResultIndex(run)], r) {
+			k, ok := errKindOf(lf.Val)
+			if ok && k == m.Kinds["Panic"] {
+				continue // the deferred recover may overwrite the result
+			}
+			if !ok || k != m.Kinds["AllAuthFailed"] {
+				okKind = false
+			}
+		}
+		c.Check(okKind, "R1.select", "Run|no handler => AllAuthFailed", w.Pos(r.Pos()), "returns an *Error of kind AllAuthFailed", "the no-handler branch does not return an AllAuthFailed error: "+w.Short(r.Results[errorResultIndex(run)]))
+	}
+	c.Floor("R1.select", nNo, 1, "return on the no-handler branch")
 }
